@@ -31,6 +31,10 @@ BYTE_SOURCES = [
     ('crlf', b"x=1\r\ny=2\r\n"),
     ('already-minified', b"def f(a):return a\nprint(f(1))"),
     ('in-operator-grows', b"0in x"),
+    ('assert-grows', b"assert 0in x"), ('asserttrue-grows', b"self.assertTrue(0in x)"), ('debug-grows', b"if __debug__:0in x"),
+    ('debug-else-grows', b"if __debug__:0in x\nelse:0in y"), ('pass-grows', b"def f():pass;0in x"), ('annot-grows', b"a:int=0in x"),
+    ('docstring-grows', b"'d';0in x"), ('object-grows', b"class A(object):0in x"), ('return-grows', b"def f():\n 0in x;return None"),
+    ('raise-grows', b"def f():\n 0in x;raise ValueError()"), ('import-grows', b"import a\nimport b;0in x"),
     ('hex-literal', b"x=0x10"),
     ('float-literal', b"x=1e5"),
 ]
@@ -40,6 +44,12 @@ BYTE_SOURCES = [
 PREFIXES = [('', b''), ('sh:', b'#!/bin/sh\n'), ('env:', b'#!/usr/bin/env python3\n'), ('nonascii:', b'#!/opt/caf\xc3\xa9/bin/python -u\n'), ('crlf:', b'#!/bin/sh\r\n')]
 SHEBANG_ONLY = [('shebang-no-newline', b'#!/bin/sh'), ('shebang-args-no-newline', b'#!/usr/bin/env python3 -u'), ('shebang-cr', b'#!/bin/sh\r'),
                 ('shebang-two-newlines', b'#!/bin/sh\n\n')]
+
+
+FLAGS = ['no-combine-imports', 'no-remove-pass', 'remove-literal-statements', 'no-hoist-literals', 'no-rename-locals', 'rename-globals', 'no-remove-object-base',
+         'no-convert-posargs-to-args', 'no-preserve-shebang', 'remove-asserts', 'remove-debug', 'no-remove-explicit-return-none',
+         'no-remove-builtin-exception-brackets', 'no-constant-folding', 'no-remove-annotations', 'no-remove-variable-annotations', 'no-remove-return-annotations',
+         'no-remove-argument-annotations', 'remove-class-attribute-annotations']      # CliS.tla Flags
 
 
 def byte_sources():
@@ -63,13 +73,24 @@ def byte_job(job):
     with open(path, 'wb') as f:
         f.write(src)
     outpath = os.path.join(root, 'OUT.min')
-    argv = ['-' if via_stdin else path]
+    argv = ['-' if via_stdin else path] + ['--' + f for f in job.get('flags', [])]
     if mode == 'in_place':
         argv.append('--in-place')
     elif mode == 'output':
         argv += ['--output', outpath]
-    res = cli_run.run_main(argv, stdin_bytes=src if via_stdin else b'', env_force=force)
-    api = cli_run.api_bytes(src, {})
+    rk = []
+    res = cli_run.run_main(argv, stdin_bytes=src if via_stdin else b'', env_force=force, record_kwargs=rk)
+    if rk:
+        # what the API returns for the keyword arguments the tool itself passed (whatever the flags mean - that is C13's business)
+        import python_minifier
+        try:
+            kw = dict(rk[-1])
+            kw.pop('filename', None)
+            api = python_minifier.minify(src, **kw).encode('utf-8')
+        except BaseException:   # noqa
+            api = None
+    else:
+        api = cli_run.api_bytes(src, {})
     with open(path, 'rb') as f:
         post = f.read()
     what = 'pre' if post == src else ('min' if api is not None and post == api else 'other')
@@ -121,6 +142,17 @@ def run(args, rep):
                         continue
                     jid = 'bytes:%s|%s|%s|%s' % (name, mode, force, via_stdin)
                     jobs.append({'id': jid, 'name': name, 'src': src, 'mode': mode, 'force': force, 'stdin': via_stdin})
+    # every flag on its own (the size rule must not depend on what was asked for): each source, file to stdout and in place
+    from .. import tlc as _tlc      # noqa
+    flags = sorted(FLAGS)
+    for name, src in srcs:
+        if name.startswith('rnd'):
+            continue
+        for fl in flags:
+            if args.tier == 'quick' and not (name.split(':')[-1].endswith('-grows') or name in ('tiny', 'raw-tab', 'already-minified')):
+                continue
+            for mode in ('stdout', 'in_place'):
+                jobs.append({'id': 'bytes:%s|%s|False|False|%s' % (name, mode, fl), 'name': name, 'src': src, 'mode': mode, 'force': False, 'stdin': False, 'flags': [fl]})
     obs = local.pmap(byte_job, jobs, chunksize=8)
     # sources the interpreter rejects are not part of this property (they fail, which C15 judges)
     obs = [o for o in obs if o['files'][0]['class'] != 'invalid']
@@ -139,7 +171,7 @@ def run(args, rep):
             replay={'kind': 'cli-bytes', 'id': rid, 'observed': o})
     rep.sample({'byte_source': 'raw-tab', 'observed': byid.get('bytes:raw-tab|stdout|False|False')})
     rep.rule = ('TLC-enumerated configurations containing a shrinking / equal / growing / empty target in every mode, plus stdin shapes, '
-                'plus byte-level sources (cookies, BOM, raw control characters, tiny and empty inputs; each also behind 4 kinds of #! line, and #! lines alone) in every mode x override x stdin; '
+                'plus byte-level sources (cookies, BOM, raw control characters, tiny and empty inputs; each also behind 4 kinds of #! line, and #! lines alone) in every mode x override x stdin, and under each of the 19 flags on its own; '
                 'non-trivial = distinct (configuration | source, size class) pairs')
     rep.extra.update({'configurations_enumerated_by_tlc': total, 'byte_sources': len(srcs),
                       'checker_cmd': 'tlc Cli.tla; tlc Trace_Cli.tla over ndjson run records'})
